@@ -569,11 +569,11 @@ pub fn guarded_formula(cfg: &FolCfg) -> BoxedStrategy<fol::Formula> {
             let iv = cfg2.ivars.clone();
             let domain_shape = (
                 (select(gv), select(iv), any::<bool>(), any::<bool>()),
-                (any::<bool>(), any::<bool>(), any::<bool>()),
+                (any::<bool>(), any::<bool>(), any::<bool>(), 0u8..6),
                 inner.clone(),
                 inner.clone(),
             )
-                .prop_map(|((z, i, forall, flip), (rebind, extra_outer, left), rest, other)| {
+                .prop_map(|((z, i, forall, flip), (rebind, extra_outer, left, conn_choice), rest, other)| {
                     let zv = fol::Variable { name: z.clone(), sort: fol::Sort::General };
                     let ivar = fol::Variable { name: i.clone(), sort: fol::Sort::Integer };
                     let eq = if flip {
@@ -595,11 +595,20 @@ pub fn guarded_formula(cfg: &FolCfg) -> BoxedStrategy<fol::Formula> {
                     if extra_outer {
                         outer_vars.push(fol::Variable { name: "Y".into(), sort: fol::Sort::General });
                     }
-                    if forall {
-                        quant(true, outer_vars, bin(fol::BinaryConnective::Implication, inner_q, other))
-                    } else {
-                        quant(false, outer_vars, bin(fol::BinaryConnective::Conjunction, inner_q, other))
-                    }
+                    // the sound shapes are `forall (inner -> other)` and `exists (inner and other)`;
+                    // the neighbouring connectives are generated too (a rewrite must not fire on them,
+                    // or must stay sound if it does)
+                    let conn = match conn_choice {
+                        0..=2 => {
+                            if forall { fol::BinaryConnective::Implication } else { fol::BinaryConnective::Conjunction }
+                        }
+                        3 => fol::BinaryConnective::Equivalence,
+                        4 => fol::BinaryConnective::Disjunction,
+                        _ => {
+                            if forall { fol::BinaryConnective::Conjunction } else { fol::BinaryConnective::Implication }
+                        }
+                    };
+                    quant(forall, outer_vars, bin(conn, inner_q, other))
                 });
             let equivalence_shape = (inner.clone(), inner.clone())
                 .prop_map(|(f, g)| {
